@@ -319,7 +319,7 @@ class _GenerateRenderMethod:
                 % ",".join(
                     [
                         "%s=%s" % (x, x)
-                        for x in self.identifiers.argument_declared
+                        for x in sorted(self.identifiers.argument_declared)
                     ]
                 )
             )
@@ -524,7 +524,7 @@ class _GenerateRenderMethod:
         if has_loop:
             self.printer.writeline("loop = __M_loop = runtime.LoopStack()")
 
-        for ident in to_write:
+        for ident in sorted(to_write):
             if ident in comp_idents:
                 comp = comp_idents[ident]
                 if comp.is_block:
@@ -912,7 +912,9 @@ class _GenerateRenderMethod:
                     "__M_locals.update(__M_dict_builtin([(__M_key,"
                     " __M_locals_builtin_stored[__M_key]) for __M_key in"
                     " [%s] if __M_key in __M_locals_builtin_stored]))"
-                    % ",".join([repr(x) for x in node.declared_identifiers()])
+                    % ",".join(
+                        [repr(x) for x in sorted(node.declared_identifiers())]
+                    )
                 )
 
     def visitIncludeTag(self, node):
